@@ -9,7 +9,7 @@
 # Exit 0 clean, 1 undefined behaviour or an oracle violation (VIOLATION line printed), 2 harness error.
 set -u
 ID=$1; RUNS=$2; FRAG=$3
-VERIF=/verif
+VERIF=$(cd "$(dirname "$0")/.." && pwd)
 REPO=${VERIF_REPO:-/repo}
 OUT=${VERIF_OUT:-$VERIF}
 SEED=${VERIF_SEED:-1}
